@@ -100,6 +100,11 @@ pub fn also_in_release_build(report: &mut refcodec::evidence::Report, id: &str, 
             }
             Err(e) => report.inconclusive(&format!("release-build pass: unreadable result: {e}")),
         },
+        (Ok(s), _) if s.code() == Some(refcodec::runaway::EXIT_RUNAWAY) => {
+            // the release-build child ended itself as runaway: confirm with the release binary
+            let work = std::env::var("VERIF_WORK").unwrap_or_else(|_| "/verif/.build/main".into());
+            codecprops::confirm_runaway(report, id, &format!("{work}/runaway-{id}-rel.json"), &bin, "[release build] ");
+        }
         (st, _) => report.inconclusive(&format!("release-build pass did not finish normally ({st:?})")),
     }
     let _ = std::fs::remove_file(&out);
@@ -158,11 +163,12 @@ fn main() {
     if argv[1].starts_with('C') && ctx.replay.is_none() {
         let id = argv[1].clone();
         let budget_s: u64 = std::env::var("VERIF_WATCHDOG_S").ok().and_then(|s| s.parse().ok()).unwrap_or(if ctx.tier == "quick" { 1500 } else { 6 * 3600 });
-        let mem_budget_kb: u64 = std::env::var("VERIF_MEM_BUDGET_KB").ok().and_then(|s| s.parse().ok()).unwrap_or(40 << 20);
+        let mem_budget_kb: u64 = std::env::var("VERIF_MEM_BUDGET_KB").ok().and_then(|s| s.parse().ok()).unwrap_or(12 << 20);
         std::thread::spawn(move || {
             let start = std::time::Instant::now();
             loop {
-                std::thread::sleep(std::time::Duration::from_millis(500));
+                // (short period: sixteen threads that allocate without end fill the machine within seconds)
+                std::thread::sleep(std::time::Duration::from_millis(100));
                 let rss_kb = std::fs::read_to_string("/proc/self/statm").ok().and_then(|t| t.split_whitespace().nth(1).and_then(|p| p.parse::<u64>().ok())).map(|pages| pages * 4).unwrap_or(0);
                 let why = if start.elapsed().as_secs() > budget_s {
                     Some(format!("the check did not finish within {budget_s} s (the code under test may be looping)"))
@@ -193,6 +199,8 @@ fn main() {
         "C16" => c16::run(&ctx),
         "C17" => c17::run(&ctx),
         "selfcheck" => codecprops::selfcheck(&ctx),
+        "decode-one" => codecprops::decode_one(&argv[2..]),
+        "runaway-confirm" => codecprops::runaway_confirm(&ctx, &argv[2], &argv[3]),
         "miri-slice" => c02::miri_slice(&ctx),
         other => {
             eprintln!("unknown subcommand {other}");
